@@ -248,10 +248,13 @@ class CombinedDataHandler:
 
         non_modeled_units_list = [units_blocklisted, units_with_zero_baseline, units_with_strange_turnout_factor]
 
-        # the outlier models must not see blocklisted units: their counts would otherwise move the regression and the
-        # mean/std threshold that decide whether OTHER units are modeled
+        # the outlier models must not see blocklisted or zero-baseline units: their counts would otherwise move the
+        # regression and the mean/std threshold that decide whether OTHER units are modeled
+        units_excluded_from_outlier_models = pd.concat(
+            [units_blocklisted.geographic_unit_fips, units_with_zero_baseline.geographic_unit_fips]
+        )
         outlier_model_units = reporting_units[
-            ~reporting_units.geographic_unit_fips.isin(units_blocklisted.geographic_unit_fips)
+            ~reporting_units.geographic_unit_fips.isin(units_excluded_from_outlier_models)
         ].reset_index(drop=True)
 
         if fit_turnout_outlier_model and outlier_model_units.shape[0] > self.n_minimum_for_outlier_detection_model:
